@@ -4,10 +4,12 @@ package c17
 import (
 	"bufio"
 	"encoding/hex"
+	"encoding/json"
 	"errors"
 	"fmt"
 	"math"
 	"os"
+	"reflect"
 	"strconv"
 	"strings"
 
@@ -440,9 +442,25 @@ func runCase(line string, n int) (out string) {
 			return "err stored"
 		}
 		if av.Err == nil {
-			switch held.(type) {
-			case string, []byte:
-				return "ok jsonscan" // json.Unmarshal of the held bytes is outside the model (ok or a JSON error)
+			// json.Unmarshal of the held bytes is outside the model (RJsonScan data): instantiated by encoding/json
+			// called directly on the same bytes — same error class, same decoded value
+			var data []byte
+			isData := true
+			switch x := held.(type) {
+			case string:
+				data = []byte(x)
+			case []byte:
+				data = x
+			default:
+				isData = false
+			}
+			if isData {
+				var want any
+				werr := json.Unmarshal(data, &want)
+				if (err == nil) != (werr == nil) || !reflect.DeepEqual(target, want) {
+					return fmt.Sprintf("ok jsonscan-MISMATCH impl=%v/%#v json=%v/%#v", err == nil, target, werr == nil, want)
+				}
+				return "ok jsonscan"
 			}
 		}
 		if err != nil {
